@@ -197,3 +197,27 @@ def narrowing_casts(expr, explicit=False):
             if fw and tw and fw > tw and inner.get("cv") is None:
                 out.append((n.get("from_ct"), n.get("ct"), _S(inner)))
     return out
+
+
+def flag_forced_for_type(fn, type_value, flag_const, flags_suffix="->flags", type_param="type"):
+    """Specialise fn to `type == type_value` (constant propagation along every enumerated path) and look at the `|= flag_const` stores into a
+    flags field: returns (paths that return normally, paths among them that set the flag).  However the dispatch on the type is written —
+    switch, if chain, shared tails — the question is the same: is the flag set for that kind."""
+    total = setting = 0
+    for path in fn.paths(prune=False):
+        feas, _env, _a, evs = rules.simulate(fn, path, preset={type_param: type_value})
+        if not feas:
+            continue
+        # paths that end in the refusal of an unknown type / a failed allocation do not create a source
+        rets = [e for e in evs if e.kind == "ret"]
+        if rets and rets[-1].e is not None and (cval(rets[-1].e) == 0 or strip(rets[-1].e).get("k") == "null"):
+            continue
+        if any(e.kind == "call" and e.callee in ("m_mem_unrefp", "m_mem_unref", "__assert_fail", "abort", "exit", "_exit") for e in evs):
+            continue          # (released again, or the process aborts on this path: assert in the -UNDEBUG configuration)
+        if not rets:
+            continue
+        total += 1
+        if any(e.kind == "assign" and e.e.get("op") == "|=" and S(e.lhs).endswith(flags_suffix) and cval(e.rhs) is not None
+               and (cval(e.rhs) & flag_const) == flag_const for e in evs):
+            setting += 1
+    return total, setting
